@@ -137,7 +137,8 @@ def gen_case(rng, ctx):
     if rng.random() < 0.08:
         dur = -dur        # a negative duration is a legal Event (clocks get adjusted between heartbeats)
     return dict(kind="one", us=us, off=off, zone=zone, rep="dt" if (zone and rng.random() < 0.7) else rng.choice(REPS), durk=durk, dur=dur,
-                data=rand_data(rng, 3), id=rng.choice([None, None, 0, 7, 2**40, "abc", "17"]))
+                data=rand_data(rng, 3), id=rng.choice([None, None, 0, 7, 2**40, "abc", "17", 2**31, 2**53 - 1, 2**53, 2**53 + 1, -(2**53) - 1, 2**63 - 1, 2**63,
+                                2**64 + 1, -1, "", "0", "2**53"]))
 
 
 def run_case(case, ctx):
